@@ -36,7 +36,7 @@ class Check:
         self.notes = []
         self.caps = []
         self.deadline = None
-        self.max_violation_reports = 25
+        self.max_violation_reports = int(os.environ.get("VERIF_MAX_REPORTS", "25"))
         os.makedirs(REPLAYS, exist_ok=True)
         # stale replays of this property are removed at the start of a run
         for f in os.listdir(REPLAYS):
